@@ -165,8 +165,10 @@ class USMSecurityParameters:
             OctetString,
             OctetString,
         )
+        # The application types of SNMP (TimeTicks, Counter, IpAddress, ...)
+        # are subclasses of the universal types. They are not valid here.
         if len(seq) != len(expected_types) or not all(
-            isinstance(item, type_) for item, type_ in zip(seq, expected_types)
+            type(item) is type_ for item, type_ in zip(seq, expected_types)
         ):
             raise SnmpError("Malformed USM security parameters!")
         return USMSecurityParameters(
